@@ -110,3 +110,121 @@ pub fn run_validate(schema: &s::Document, doc: &q::Document, codes: &[String]) -
     out.extend(render_errors(&errs));
     out
 }
+
+// ---------------------------------------------------------------- C13
+fn sel_positions(ss: &q::SelectionSet, out: &mut Vec<(usize, usize)>) {
+    out.push((ss.span.0.line, ss.span.0.column));
+    out.push((ss.span.1.line, ss.span.1.column));
+    for x in &ss.items {
+        match x {
+            q::Selection::Field(f) => {
+                out.push((f.position.line, f.position.column));
+                for d in &f.directives {
+                    out.push((d.position.line, d.position.column));
+                }
+                sel_positions(&f.selection_set, out);
+            }
+            q::Selection::FragmentSpread(f) => {
+                out.push((f.position.line, f.position.column));
+                for d in &f.directives {
+                    out.push((d.position.line, d.position.column));
+                }
+            }
+            q::Selection::InlineFragment(f) => {
+                out.push((f.position.line, f.position.column));
+                for d in &f.directives {
+                    out.push((d.position.line, d.position.column));
+                }
+                sel_positions(&f.selection_set, out);
+            }
+        }
+    }
+}
+
+pub fn doc_positions(doc: &q::Document) -> Vec<(usize, usize)> {
+    let mut out = vec![];
+    for def in &doc.definitions {
+        match def {
+            q::Definition::Operation(op) => {
+                let (pos, vars, dirs, ss): (Option<graphql_tools::parser::Pos>, &[q::VariableDefinition], &[q::Directive], &q::SelectionSet) = match op {
+                    q::OperationDefinition::SelectionSet(ss) => (None, &[], &[], ss),
+                    q::OperationDefinition::Query(x) => (Some(x.position), &x.variable_definitions, &x.directives, &x.selection_set),
+                    q::OperationDefinition::Mutation(x) => (Some(x.position), &x.variable_definitions, &x.directives, &x.selection_set),
+                    q::OperationDefinition::Subscription(x) => (Some(x.position), &x.variable_definitions, &x.directives, &x.selection_set),
+                };
+                if let Some(p) = pos {
+                    out.push((p.line, p.column));
+                }
+                for v in vars {
+                    out.push((v.position.line, v.position.column));
+                }
+                for d in dirs {
+                    out.push((d.position.line, d.position.column));
+                }
+                sel_positions(ss, &mut out);
+            }
+            q::Definition::Fragment(f) => {
+                out.push((f.position.line, f.position.column));
+                for d in &f.directives {
+                    out.push((d.position.line, d.position.column));
+                }
+                sel_positions(&f.selection_set, &mut out);
+            }
+        }
+    }
+    out
+}
+
+fn canon_runs(errs: &[ValidationError]) -> Vec<String> {
+    // maximal runs of one code, sorted inside a run
+    let mut out: Vec<String> = vec![];
+    let mut run: Vec<String> = vec![];
+    let mut cur: Option<&str> = None;
+    for e in errs {
+        if cur != Some(e.error_code) {
+            run.sort();
+            out.append(&mut run);
+            cur = Some(e.error_code);
+        }
+        run.push(format!("{}|{}", render_error(e), e.message));
+    }
+    run.sort();
+    out.append(&mut run);
+    out
+}
+
+pub fn run_validate13(schema: &s::Document, doc: &q::Document, codes: &[String]) -> Vec<String> {
+    let plan = plan_of(codes);
+    let errs = validate(schema, doc, &plan);
+    let mut out = vec!["OK".to_string()];
+    out.extend(render_errors(&errs));
+    // the plan's result is the in-order union of its rules run alone
+    let mut alone: Vec<ValidationError> = vec![];
+    let mut codes_ok = true;
+    for c in codes {
+        let single = plan_of(&[c.clone()]);
+        let e1 = validate(schema, doc, &single);
+        if e1.iter().any(|e| e.error_code != c.as_str()) || single.rules[0].error_code() != c.as_str() {
+            codes_ok = false;
+        }
+        alone.extend(e1);
+    }
+    out.push(format!("UNION {}", if canon_runs(&errs) == canon_runs(&alone) { "ok" } else { "BAD" }));
+    out.push(format!("CODES {}", if codes_ok { "ok" } else { "BAD" }));
+    out.push(format!("MSG {}", if errs.iter().all(|e| !e.message.trim().is_empty()) { "ok" } else { "BAD" }));
+    let positions = doc_positions(doc);
+    let locs_ok = errs.iter().all(|e| e.locations.iter().all(|p| positions.contains(&(p.line, p.column))));
+    out.push(format!("LOCS {}", if locs_ok { "ok" } else { "BAD" }));
+    let json_ok = errs.iter().all(|e| {
+        let v = serde_json::to_value(e).unwrap();
+        let expect = serde_json::json!({
+            "locations": e.locations.iter().map(|p| serde_json::json!({"line": p.line, "column": p.column})).collect::<Vec<_>>(),
+            "message": e.message,
+        });
+        v == expect && serde_json::to_string(e).unwrap().starts_with("{\"locations\":")
+    });
+    out.push(format!("JSON {}", if json_ok { "ok" } else { "BAD" }));
+    let dp: Vec<&str> = default_rules_validation_plan().rules.iter().map(|r| r.error_code()).collect();
+    out.push(format!("DEFAULTPLAN {}", if dp == ALL_RULES { "ok" } else { "BAD" }));
+    out
+}
